@@ -2,6 +2,7 @@
 #[cfg(kani)]
 pub mod verif_kani {
     use super::*;
+    #[allow(unused_imports)] use crate::primes::{Generator, LargeSafePrime}; #[allow(unused_imports)] use sha1::{Digest, Sha1};
     use core::sync::atomic::{AtomicU8, AtomicUsize, Ordering};
     use sha1::digest::generic_array::GenericArray;
     use sha1::digest::typenum::U64;
